@@ -415,6 +415,12 @@ def run(ck):
                         if mx > 2000:
                             continue
                         qcases.append({"sample": spec, "bw": {"mode": "cv-sub", "script": sc, "max": mx}, "maps": maps, "stride": stride})
+    # a bulk with far outliers and bandwidths far below the range (range / h in the thousands: deep look-up trees)
+    for n in ((82,) if quick else (42, 82, 302)):
+        spec = {"kind": "quantile", "family": "outliers", "n": n, "stride": stride}
+        for f in (0.001, 0.004) if quick else (0.0005, 0.001, 0.004, 0.02):
+            qcases.append({"sample": spec, "bw": {"mode": "user", "factor": f}, "maps": maps3, "stride": stride})
+        qcases.append({"sample": spec, "bw": {"mode": "rule"}, "maps": maps3, "stride": stride})
     # the heavy cross-validated blocks are split in two (each keeps the base map for the covariance oracle)
     split = []
     for c in qcases:
